@@ -319,6 +319,8 @@ class LocalShare:
             return None
         if not os.path.isdir(self.__path):
             return 0
+        if not os.path.exists(os.path.join(self.__path, "repo.json")):
+            return 0 # no package was installed yet
 
         # Create a temporary attic directory. All garbage collected packages
         # are moved there to delete them without holding any locks.
@@ -346,8 +348,9 @@ class LocalShare:
 
                 # Move all candidates to the attic until we are under the quota
                 for pkgUnused, _, pkgSize, pkgBuildId in sorted(candidates):
-                    if (not pkgUnused or not pruneUnused) and (repoSize <= self.__quota):
-                        break
+                    if (not pkgUnused or not pruneUnused) and \
+                       (self.__quota is None or repoSize <= self.__quota):
+                        continue
                     pkgPath = self.__buildPath(bytes.fromhex(pkgBuildId))
                     repoSize -= pkgSize
                     progress(pkgPath)
